@@ -971,7 +971,10 @@ def check_C18(A: Analysis, tier):
                     rc.ob()
                     rc.inst(f"{ev.func.qual}:{ev.line} writes {showv(ev.paths[1])[:50]}")
                     for t in ev.paths[1]:
-                        for x in subterms(t):
+                        # the value written: the term itself or the parts of `x + "\n"`; a
+                        # digest (H(..), digestmap[..]) is hex by construction
+                        parts = t[1] if tag(t) == "cat" else (t,)
+                        for x in parts:
                             if tag(x) == "param" and ("argof", Q("_check_string"), "string", x) not in ev.done:
                                 rc.fail(site_func(ev), site_text(ev), f"`{x[1]}` is written into a line-oriented reference file without having "
                                         "passed _check_string on this path", site_loc(A, ev))
